@@ -256,11 +256,17 @@ theorem leaveSeq_enterSeq_r (m : M κ) : (leaveSeq (enterSeq m)).r = (leaveSeq m
 theorem leaveSeq_r_congr {m m' : M κ} (h : m'.r = m.r) : (leaveSeq m').r = (leaveSeq m).r := by
   obtain ⟨c, r, x⟩ := m; obtain ⟨c', r', x'⟩ := m'; simp only at h; subst h; cases r' <;> rfl
 
+theorem LexRel.mono_np {δ d np np' : Nat} {ab : Ab} {ls lw : LexRegs} (hl : LexRel δ d ab np ls lw) (hk : np ≤ np') :
+    LexRel δ d ab np' ls lw :=
+  { hl with ls_le := Nat.le_trans hl.ls_le hk, p := fun g => Nat.le_trans (hl.p g) hk,
+            ntu := fun g n hn => leNonTag_mono hk (hl.ntu g n hn),
+            ntp := fun g g' n hn => leNonTag_mono (Nat.sub_le_sub_right hk 1) (hl.ntp g g' n hn) }
+
 theorem RegsRel.mono_np {δ d np np' : Nat} {ab : Ab} {rs rw : Regs} (h : RegsRel δ d ab .none np rs rw) (hk : np ≤ np') :
     RegsRel δ d ab .none np' rs rw := by
   cases rs <;> cases rw
   · have hl : LexRel δ d ab np _ _ := h
-    exact { hl with ls_le := Nat.le_trans hl.ls_le hk, p := fun g => Nat.le_trans (hl.p g) hk }
+    exact hl.mono_np hk
   · exact h
   · exact h
   · obtain ⟨h1, h2, h3⟩ := h
@@ -283,8 +289,7 @@ theorem advLeave_sim {δ d : Nat} {ab : Ab} {sm : SeqMode} {ms mw : M κ} (h : M
       have hl : LexRel δ d ab cs.nextPos ls lw := hr
       refine ⟨{ hc with nextPos := by show cw.nextPos + k + 0 = cs.nextPos + k + δ; simp only at hnp; omega }, ?_, hsim, hpc⟩
       show LexRel δ d ab (cs.nextPos + k) ls lw
-      exact { hl with ls_le := Nat.le_trans hl.ls_le (Nat.le_add_right _ _),
-                      p := fun g => Nat.le_trans (hl.p g) (Nat.le_add_right _ _) }
+      exact hl.mono_np (Nat.le_add_right _ _)
   | scanner ss =>
     cases rw with
     | lexer lw => exact hr.elim
